@@ -7,7 +7,7 @@
    whether a migrate handler exists is the parameter has_migrate) and emitting ONE default entry point (the value
    `default_entry_point [kind]`; its content is covered by C02 / C06's other theorems and ties). *)
 From Coq Require Import String List Bool Arith Lia.
-Require Import SV.Model.Imp SV.Model.GenImp SV.Facts.ImpFacts.
+Require Import SV.Model.Imp SV.Model.GenImpMacro SV.Facts.ImpFacts.
 Import ListNotations.
 Open Scope string_scope.
 Open Scope list_scope.
